@@ -135,8 +135,13 @@ async def run_stream(ctx, case):
     def register(cb):
         fn = make(cb)
         funcs[cb["id"]] = fn
-        uuids[cb["id"]] = client.onevent(callback=fn, device=cb["device"], vector=cb["vector"], element=cb["element"],
-                                         event_type=getattr(E, cb["etype"]))
+        if cb["etype"] == "BaseEvent" and cb["id"] % 2 == 0:
+            # "any event" is the default: registered WITHOUT naming an event type, removed later by criteria that do name BaseEvent
+            uuids[cb["id"]] = client.onevent(callback=fn, device=cb["device"], vector=cb["vector"], element=cb["element"])
+            counters["registered_without_event_type"] += 1
+        else:
+            uuids[cb["id"]] = client.onevent(callback=fn, device=cb["device"], vector=cb["vector"], element=cb["element"],
+                                             event_type=getattr(E, cb["etype"]))
 
     def remove(cb, how):
         if how == "uuid":
